@@ -101,7 +101,9 @@ CHECKS = {
              "negative/positive value at call k, string sink from NULL / pre-filled / shared by both streams} x realloc failure at every growth step x "
              "deadline {none, 1..3 ms} expiring before/between/after output, through reproc_drain and reproc_run_ex. Oracle: two initial (in, 0) calls, "
              "chunks equal the stream byte for byte, exactly one size-0 call per piped stream after its data, 0 iff both ended, first non-zero sink value "
-             "returned with no later call, ETIMEDOUT only at the deadline, string = previous content + bytes (intact after ENOMEM), run_ex = exit status."),
+             "returned with no later call, ETIMEDOUT only at the deadline and no call inside drain still blocked after it, string = previous content + bytes "
+             "(intact after ENOMEM), run_ex = exit status. The reproc++ templates reproc::drain / reproc::run with lambda sinks and sink::string are "
+             "instantiated in a C++ harness (h_c16_cxx) over the same interposed C objects and judged by the same protocol clauses."),
     "C17": dict(
         cat="model_checking", design="3/C17",
         technique="stateless model checking of the real library with a blocked-interval log: every state of the pipe x operation x mode, livelock guard on busy waits",
